@@ -198,7 +198,7 @@ fn stmt_families(args: &Args, rng: &mut Rng, meta: &mut Meta) {
     let mut ext_forms: std::collections::BTreeMap<&'static str, usize> = Default::default();
     for k in 0..n_ext {
         let depth = 1 + (k % 3) as u32;
-        let sc = stmt::Scope::top_ext(vec![], 1);
+        let sc = stmt::Scope::top_ext(vec![], if k % 4 == 0 { 1 } else { 2 });
         let b = stmt::body(rng, depth, &sc);
         let src = stmt::body_src(&b, rng);
         let name = if k % 2 == 0 { "x.html" } else { "x.txt" };
